@@ -76,9 +76,13 @@ trait JUser {
     fn use_config<P: HP>(self, config: &Configuration<J<P>>, inner: P) -> Self::Out where P::Encoding: std::fmt::Debug;
 }
 
-/// The same grid as `hcommon::templates::with_template`, instantiated for `J<…>`.
+/// Number of parameter points in the copy below.
+const JV: u32 = 4;
+/// The same grid as `hcommon::templates::with_template` (copied from it with the problem types
+/// replaced), instantiated for `J<…>`. Whether a point still equals the shared table is checked per
+/// case by comparing the serialised configurations (`same_as_shared`).
 fn with_jtemplate<U: JUser>(name: &str, variant: u32, instance: u32, iters: u32, user: U) -> Result<U::Out, String> {
-    let v = (variant % N_VARIANTS) as usize;
+    let v = (variant % JV) as usize;
     type JS = J<Sphere>;
     type JO = J<OneMax>;
     type JT = J<Tsp>;
@@ -92,75 +96,75 @@ fn with_jtemplate<U: JUser>(name: &str, variant: u32, instance: u32, iters: u32,
     match name {
         "real_ga" => go!(sphere_instance(instance), ga::real_ga::<JS>(
             ga::RealProblemParameters {
-                population_size: [6, 10, 4][v], tournament_size: [2, 3, 4][v], pm: [1.0, 0.5, 0.1][v],
-                deviation: [0.1, 1.0, 0.01][v], pc: [0.8, 1.0, 0.0][v],
+                population_size: [6, 10, 4, 2][v], tournament_size: [2, 3, 4, 2][v], pm: [1.0, 0.5, 0.1, 0.0][v],
+                deviation: [0.1, 1.0, 0.01, 0.5][v], pc: [0.8, 1.0, 0.0, 0.5][v],
             }, LessThanN::iterations(iters))),
         "binary_ga" => go!(onemax_instance(instance), ga::binary_ga::<JO>(
             ga::BinaryProblemParameters {
-                population_size: [6, 10, 4][v], tournament_size: [2, 3, 4][v], rm: [0.1, 0.5, 1.0][v],
-                pc: [0.8, 1.0, 0.0][v], pm: [1.0, 0.5, 0.0][v],
+                population_size: [6, 10, 4, 2][v], tournament_size: [2, 3, 4, 1][v], rm: [0.1, 0.5, 1.0, 0.0][v],
+                pc: [0.8, 1.0, 0.0, 0.5][v], pm: [1.0, 0.5, 0.0, 1.0][v],
             }, LessThanN::iterations(iters))),
         "real_es" => go!(sphere_instance(instance), es::real_mu_plus_lambda_es::<JS, ()>(
-            es::RealProblemParameters { population_size: [3, 5, 1][v], lambda: [6, 5, 1][v], deviation: [0.1, 1.0, 0.01][v] },
+            es::RealProblemParameters { population_size: [3, 5, 1, 2][v], lambda: [6, 5, 1, 0][v], deviation: [0.1, 1.0, 0.01, 0.1][v] },
             LessThanN::iterations(iters))),
         "real_de" => go!(sphere_instance(instance), de::real_de::<JS>(
-            de::RealProblemParameters { population_size: [6, 8, 10][v], y: [1, 1, 2][v], f: [0.5, 1.0, 0.2][v], pc: [0.9, 0.5, 0.1][v] },
+            de::RealProblemParameters { population_size: [6, 8, 10, 4][v], y: [1, 1, 2, 1][v], f: [0.5, 1.0, 0.2, 0.0][v], pc: [0.9, 0.5, 0.1, 1.0][v] },
             LessThanN::iterations(iters))),
         "real_pso" => go!(sphere_instance(instance), pso::real_pso::<JS>(
             pso::RealProblemParameters {
-                num_particles: [4, 1, 7][v], start_weight: [0.9, 0.5, 0.0][v], end_weight: [0.4, 0.5, 1.0][v],
-                c_one: [1.7, 0.0, 2.0][v], c_two: [1.7, 2.0, 0.0][v], v_max: [1.0, 0.001, 10.0][v],
+                num_particles: [4, 1, 7, 2][v], start_weight: [0.9, 0.5, 0.0, 1.0][v], end_weight: [0.4, 0.5, 1.0, 1.0][v],
+                c_one: [1.7, 0.0, 2.0, 0.0][v], c_two: [1.7, 2.0, 0.0, 0.0][v], v_max: [1.0, 0.001, 10.0, 0.5][v],
             }, LessThanN::iterations(iters))),
         "real_sa" => go!(sphere_instance(instance), sa::real_sa::<JS>(
-            sa::RealProblemParameters { t_0: [1.0, 100.0, 1e-3][v], alpha: [0.9, 0.99, 0.5][v], deviation: [0.1, 1.0, 0.01][v] },
+            sa::RealProblemParameters { t_0: [1.0, 100.0, 1e-3, 1e6][v], alpha: [0.9, 0.99, 0.5, 0.0][v], deviation: [0.1, 1.0, 0.01, 1e-6][v] },
             LessThanN::iterations(iters))),
         "permutation_sa" => go!(tsp_instance(instance), sa::permutation_sa::<JT>(
-            sa::PermutationProblemParameters { t_0: [1.0, 100.0, 1e-3][v], alpha: [0.9, 0.99, 0.5][v], num_swap: [2, 3, 4][v] },
+            sa::PermutationProblemParameters { t_0: [1.0, 100.0, 1e-3, 1e6][v], alpha: [0.9, 0.99, 0.5, 0.0][v], num_swap: [2, 3, 4, 5][v] },
             LessThanN::iterations(iters))),
         "real_ls" => go!(sphere_instance(instance), ls::real_ls::<JS>(
-            ls::RealProblemParameters { n_neighbors: [3, 1, 6][v], deviation: [0.1, 1.0, 0.01][v] },
+            ls::RealProblemParameters { n_neighbors: [3, 1, 6, 0][v], deviation: [0.1, 1.0, 0.01, 0.1][v] },
             LessThanN::iterations(iters))),
         "permutation_ls" => go!(tsp_instance(instance), ls::permutation_ls::<JT>(
-            ls::PermutationProblemParameters { num_neighbors: [3, 1, 6][v], num_swap: [2, 3, 4][v] },
+            ls::PermutationProblemParameters { num_neighbors: [3, 1, 6, 0][v], num_swap: [2, 3, 4, 2][v] },
             LessThanN::iterations(iters))),
         "real_ils" => go!(sphere_instance(instance), ils::real_ils::<JS>(
             ils::RealProblemParameters {
-                ls_params: ls::RealProblemParameters { n_neighbors: [3, 1, 6][v], deviation: [0.1, 1.0, 0.01][v] },
-                ls_condition: LessThanN::iterations([2, 3, 1][v]),
+                ls_params: ls::RealProblemParameters { n_neighbors: [3, 1, 6, 0][v], deviation: [0.1, 1.0, 0.01, 0.1][v] },
+                ls_condition: LessThanN::iterations([2, 3, 1, 0][v]),
             }, LessThanN::iterations(iters))),
         "permutation_ils" => go!(tsp_instance(instance), ils::permutation_ils::<JT>(
             ils::PermutationProblemParameters {
-                ls_params: ls::PermutationProblemParameters { num_neighbors: [3, 1, 6][v], num_swap: [2, 3, 4][v] },
-                ls_condition: LessThanN::iterations([2, 3, 1][v]),
+                ls_params: ls::PermutationProblemParameters { num_neighbors: [3, 1, 6, 0][v], num_swap: [2, 3, 4, 2][v] },
+                ls_condition: LessThanN::iterations([2, 3, 1, 0][v]),
             }, LessThanN::iterations(iters))),
         "real_rs" => go!(sphere_instance(instance), rs::real_rs::<JS>(LessThanN::iterations(iters))),
         "permutation_rs" => go!(tsp_instance(instance), rs::permutation_rs::<JT>(LessThanN::iterations(iters))),
         "real_rw" => go!(sphere_instance(instance), rw::real_rw::<JS>(
-            rw::RealProblemParameters { deviation: [0.1, 1.0, 0.01][v] }, LessThanN::iterations(iters))),
+            rw::RealProblemParameters { deviation: [0.1, 1.0, 0.01, 1e-9][v] }, LessThanN::iterations(iters))),
         "permutation_rw" => go!(tsp_instance(instance), rw::permutation_random_walk::<JT>(
-            rw::PermutationProblemParameters { num_swap: [2, 3, 4][v] }, LessThanN::iterations(iters))),
+            rw::PermutationProblemParameters { num_swap: [2, 3, 4, 5][v] }, LessThanN::iterations(iters))),
         "real_iwo" => go!(sphere_instance(instance), iwo::real_iwo::<JS>(
             iwo::RealProblemParameters {
-                initial_population_size: [3, 2, 4][v], max_population_size: [6, 5, 4][v],
-                min_number_of_seeds: [0, 1, 2][v], max_number_of_seeds: [3, 1, 5][v],
-                initial_deviation: [0.01, 0.1, 0.5][v], final_deviation: [0.5, 1.0, 0.6][v], modulation_index: [3, 1, 2][v],
+                initial_population_size: [3, 2, 4, 1][v], max_population_size: [6, 5, 4, 1][v],
+                min_number_of_seeds: [0, 1, 2, 0][v], max_number_of_seeds: [3, 1, 5, 1][v],
+                initial_deviation: [0.01, 0.1, 0.5, 0.1][v], final_deviation: [0.5, 1.0, 0.6, 0.2][v], modulation_index: [3, 1, 2, 1][v],
             }, LessThanN::iterations(iters))),
         "real_fa" => go!(sphere_instance(instance), fa::real_fa::<JS>(
-            fa::RealProblemParameters { pop_size: [4, 6, 3][v], alpha: [0.25, 0.5, 0.0][v], beta: [1.0, 0.5, 0.2][v], gamma: [0.01, 1.0, 0.1][v], delta: [0.97, 0.9, 1.0][v] },
+            fa::RealProblemParameters { pop_size: [4, 6, 3, 1][v], alpha: [0.25, 0.5, 0.0, 0.0][v], beta: [1.0, 0.5, 0.2, 0.0][v], gamma: [0.01, 1.0, 0.1, 0.0][v], delta: [0.97, 0.9, 1.0, 0.5][v] },
             LessThanN::iterations(iters))),
         "real_bh" => go!(sphere_instance(instance), bh::real_bh::<JS>(
-            bh::RealProblemParameters { num_particles: [4, 6, 2][v] }, LessThanN::iterations(iters))),
+            bh::RealProblemParameters { num_particles: [4, 6, 2, 1][v] }, LessThanN::iterations(iters))),
         "real_cro" => go!(sphere_instance(instance), cro::real_cro::<JS>(
             cro::RealProblemParameters {
-                initial_population_size: [4, 6, 3][v], mole_coll: [0.2, 0.5, 0.8][v], kinetic_energy_lr: [0.2, 0.5, 0.9][v],
-                alpha: [5, 2, 50][v], beta: [0.1, 10.0, 1.0][v], initial_kinetic_energy: [10.0, 100.0, 1.0][v],
-                buffer: [0.0, 10.0, 1.0][v], on_wall_deviation: [0.1, 0.5, 0.01][v], decomposition_deviation: [0.1, 0.5, 1.0][v],
+                initial_population_size: [4, 6, 3, 2][v], mole_coll: [0.2, 0.5, 0.8, 0.0][v], kinetic_energy_lr: [0.2, 0.5, 0.9, 0.0][v],
+                alpha: [5, 2, 50, 0][v], beta: [0.1, 10.0, 1.0, 0.0][v], initial_kinetic_energy: [10.0, 100.0, 1.0, 0.0][v],
+                buffer: [0.0, 10.0, 1.0, 0.0][v], on_wall_deviation: [0.1, 0.5, 0.01, 0.1][v], decomposition_deviation: [0.1, 0.5, 1.0, 0.1][v],
             }, LessThanN::iterations(iters))),
         "ant_system" => go!(tsp_instance(instance), aco::ant_system::<JT>(
-            aco::ASParameters::verif_new([3, 5, 1][v], [1.0, 0.0, 5.0][v], [1.0, 5.0, 0.0][v], [1.0, 0.5, 2.0][v], [0.1, 0.9, 0.5][v], [1.0, 10.0, 0.1][v]),
+            aco::ASParameters::verif_new([3, 5, 1, 1][v], [1.0, 0.0, 5.0, 0.0][v], [1.0, 5.0, 0.0, 0.0][v], [1.0, 0.5, 2.0, 1.0][v], [0.1, 0.9, 0.5, 0.0][v], [1.0, 10.0, 0.1, 1.0][v]),
             LessThanN::iterations(iters))),
         "max_min_ant_system" => go!(tsp_instance(instance), aco::max_min_ant_system::<JT>(
-            aco::MMASParameters::verif_new([3, 5, 1][v], [1.0, 0.0, 5.0][v], [1.0, 5.0, 0.0][v], [1.0, 0.5, 2.0][v], [0.1, 0.9, 0.5][v], [2.0, 5.0, 3.0][v], [0.5, 0.1, 1.0][v]),
+            aco::MMASParameters::verif_new([3, 5, 1, 1][v], [1.0, 0.0, 5.0, 0.0][v], [1.0, 5.0, 0.0, 0.0][v], [1.0, 0.5, 2.0, 1.0][v], [0.1, 0.9, 0.5, 1.0][v], [2.0, 5.0, 3.0, 1.0][v], [0.5, 0.1, 1.0, 0.5][v]),
             LessThanN::iterations(iters))),
         other => Err(format!("unknown template {other}")),
     }
@@ -304,6 +308,29 @@ impl ConfigUser for PlainSeq {
         run_digest(config, problem, self.seed, false, Gen::Seeded, &enc)
     }
 }
+/// Serialised configuration (problem wrapper type names normalised away), to detect drift between
+/// the copied template table above and the shared one.
+fn norm_ser(s: String) -> String { s.replace("c08::J<", "").replace('>', "") }
+struct SerJ;
+impl JUser for SerJ {
+    type Out = String;
+    fn use_config<P: HP>(self, config: &Configuration<J<P>>, _inner: P) -> String where P::Encoding: std::fmt::Debug {
+        norm_ser(serde_json::to_string(config.heuristic()).unwrap_or("ser-err-j".into()))
+    }
+}
+struct SerPlain;
+impl ConfigUser for SerPlain {
+    type Out = String;
+    fn use_config<P: HProblem>(self, config: &Configuration<P>, _problem: &P) -> String {
+        norm_ser(serde_json::to_string(config.heuristic()).unwrap_or("ser-err-p".into()))
+    }
+}
+fn same_as_shared(name: &str, v: u32, inst: u32, iters: u32) -> bool {
+    match (with_jtemplate(name, v, inst, iters, SerJ), with_template(name, v, inst, iters, SerPlain)) {
+        (Ok(a), Ok(b)) => a == b,
+        _ => false,
+    }
+}
 struct SeqOnly { seed: u64, gen: Gen }
 impl JUser for SeqOnly {
     type Out = String;
@@ -442,7 +469,9 @@ fn run_case(input: &Sx, pools: &[(usize, rayon::ThreadPool)]) -> String {
             let (v, inst, iters, seed) = (n(1) as u32, n(2) as u32, n(3) as u32, n(4));
             let cx = Ctx { pools, seed, jseed: seed ^ 0x1234 };
             let mut ds = match with_jtemplate(name, v, inst, iters, RunAll { cx }) { Ok(d) => d, Err(_) => return "(digests (seq ctor-err))".into() };
-            ds.push(list(["unwrapped".into(), with_template(name, v, inst, iters, PlainSeq { seed }).unwrap_or("ctor-err".into())]));
+            if same_as_shared(name, v, inst, iters) {
+                ds.push(list(["unwrapped".into(), with_template(name, v, inst, iters, PlainSeq { seed }).unwrap_or("ctor-err".into())]));
+            }
             if a.len() > 5 {
                 // fresh process
                 let d = std::process::Command::new(std::env::current_exe().unwrap())
@@ -522,7 +551,7 @@ fn run_case(input: &Sx, pools: &[(usize, rayon::ThreadPool)]) -> String {
 }
 
 fn main() {
-    quiet_panics();
+    if std::env::var("VERIF_LOUD").is_err() { quiet_panics(); }
     let argv: Vec<String> = std::env::args().collect();
     if argv.len() >= 8 && argv[1] == "--exp" {
         let p = |i: usize| argv[i].parse::<u64>().unwrap();
@@ -558,7 +587,7 @@ fn main() {
     let mut k = 0u64;
     for name in TEMPLATES {
         for rep in 0..reps {
-            let variants: Vec<u32> = if a.thorough || all_variants { (0..N_VARIANTS).collect() } else { vec![((a.seed + k) % N_VARIANTS as u64) as u32] };
+            let variants: Vec<u32> = if a.thorough || all_variants { (0..JV).collect() } else { vec![((a.seed + k) % JV as u64) as u32] };
             for v in variants {
                 let iters = r.range(1, if a.thorough { 15 } else { 6 });
                 let fresh = if k % 4 == 0 { " fresh" } else { "" };
@@ -575,7 +604,7 @@ fn main() {
     // 3. user-supplied generator
     for (i, name) in TEMPLATES.iter().enumerate() {
         if a.thorough || i < 100 {
-            emit(format!("(user-rng {name} {} {} {})", r.below(3), r.range(1, 4), r.below(1 << 20)));
+            emit(format!("(user-rng {name} {} {} {})", r.below(JV as u64), r.range(1, 4), r.below(1 << 20)));
         }
     }
     // 4. the batch experiment runner: run counts 1–6 × pool sizes
@@ -585,7 +614,7 @@ fn main() {
         let name = exp_templates[(t + a.seed as usize) % exp_templates.len()];
         for runs in 1..=6u64 {
             let pool = [1, 2, 4, 8][((runs + t as u64 + a.seed) % 4) as usize];
-            emit(format!("(exp {name} {} {} {runs} {pool})", r.below(3), r.range(1, 4)));
+            emit(format!("(exp {name} {} {} {runs} {pool})", r.below(JV as u64), r.range(1, 4)));
         }
     }
     // 5. child generators, seed pairs
